@@ -171,6 +171,28 @@ func commandPattern(n *Node) string {
 // function as `op`, traced like a command.
 func customFunc(n *Node) func(t *sp.Task) {
 	node := *n
+	if node.Custom == 3 {
+		// the Go function lets a tool do the work, through the library's helper
+		// ExecCmd, writing into the task's temp directory (the tool's start / exit
+		// are the trace events; failures are injected into the tool)
+		return func(t *sp.Task) {
+			var b strings.Builder
+			b.WriteString("op " + node.Name)
+			for _, in := range node.Ins {
+				b.WriteString(" -i " + t.InIP(in.Name).Path())
+			}
+			for _, p := range node.Params {
+				b.WriteString(" -p " + p.Name + "=" + t.Param(p.Name))
+			}
+			for _, os := range node.Outs {
+				b.WriteString(" -o " + t.TempDir() + "/" + t.OutIP(os.Name).TempPath())
+			}
+			if node.PadTo != 0 {
+				fmt.Fprintf(&b, " -n %d", node.PadTo)
+			}
+			sp.ExecCmd(b.String())
+		}
+	}
 	return func(t *sp.Task) {
 		s := simrt.S
 		var inPaths []string
